@@ -500,11 +500,21 @@ pub(crate) mod v1 {
 
     impl From<Bundle> for super::Bundle {
         fn from(bundle: Bundle) -> Self {
+            // The v1 encoding has no placeholder for a missing anchor, so the anchor of a
+            // bundle without spends is substituted with `DEFAULT_ANCHOR` on encode (see
+            // `TryFrom<super::Bundle> for Bundle` above). Undo that substitution here so that
+            // decoding reproduces the encoded value, as the Orchard v1 decoder does.
+            let anchor = if bundle.spends.is_empty() && bundle.anchor == super::DEFAULT_ANCHOR {
+                None
+            } else {
+                Some(bundle.anchor)
+            };
+
             Self {
                 spends: bundle.spends,
                 outputs: bundle.outputs,
                 value_sum: bundle.value_sum,
-                anchor: Some(bundle.anchor),
+                anchor,
                 bsk: bundle.bsk,
             }
         }
